@@ -17,7 +17,7 @@ RULE = ("each run: generated well-formed input (sweep first, then seeded samplin
         "distinct (type, cc, mode, bytes)")
 REAL = common.REAL_DECODER + ["tpmstream.io.binary.unmarshal", "typed integer serialisation (base_type / AlgValue)"]
 ASSUMPTIONS = ["field offsets and widths come from the reference decode of the same bytes"]
-TIERS = {"quick": {"runs": 40000, "budget": 150}, "thorough": {"runs": 600000, "budget": 780}}
+TIERS = {"quick": {"runs": 56000, "budget": 150}, "thorough": {"runs": 600000, "budget": 780}}
 
 
 def make_case(i, rng, tier):
